@@ -1,3 +1,5 @@
 //! Seeded generators (ground truth known by construction).
 pub mod json;
 pub mod emit;
+pub mod yaml_corpus;
+pub mod utf8;
